@@ -2957,14 +2957,12 @@ class Mailbox:
 
     #########################################################################
     #
-    @classmethod
-    async def create(cls, name: str, server: "IMAPUserServer") -> None:
+    @staticmethod
+    def _check_new_mailbox_name(name: str) -> None:
         """
-        Creates a mailbox on disk that does not already exist and
-        instantiates a Mailbox object for it.
+        Raises InvalidMailbox if `name` can not be the name of a new mailbox
+        (one made by CREATE or by RENAME.)
         """
-        name = canonical_mbox_name(name)
-
         # You can not create 'INBOX' nor, because of MH rules, create a mailbox
         # that is just the digits 0-9.
         #
@@ -2980,6 +2978,17 @@ class Mailbox:
                 "Due to MH restrictions you can not create a "
                 f"root or mailbox that is just white space: '{name}'"
             )
+
+    #########################################################################
+    #
+    @classmethod
+    async def create(cls, name: str, server: "IMAPUserServer") -> None:
+        """
+        Creates a mailbox on disk that does not already exist and
+        instantiates a Mailbox object for it.
+        """
+        name = canonical_mbox_name(name)
+        cls._check_new_mailbox_name(name)
 
         # If the mailbox already exists than it can not be created. One
         # exception is if the mailbox exists but with the "\Noselect"
@@ -3209,6 +3218,24 @@ class Mailbox:
         # Inbox is handled specially.
         #
         if mbox.name.lower() != "inbox":
+            # The new name has to be one that CREATE would accept, and it can
+            # not be inside the mailbox being renamed (the db would be
+            # renamed, the directory can not be.)
+            #
+            cls._check_new_mailbox_name(new_name)
+            if new_name.startswith(mbox.name + "/"):
+                raise InvalidMailbox(
+                    f"Can not rename '{old_name}' to '{new_name}': that is "
+                    "inside the mailbox being renamed"
+                )
+
+            # RFC 3501 6.3.5: "the server SHOULD create any superior
+            # hierarchical names that are needed for the RENAME command to
+            # complete successfully"
+            #
+            new_p_name = os.path.dirname(new_name)
+            if new_p_name and not server.folder_exists(new_p_name):
+                await cls.create(new_p_name, server)
             await _helper_rename_folder(mbox, new_name)
         else:
             await _helper_rename_inbox(mbox, new_name)
